@@ -124,6 +124,12 @@ def check_diagnostic(s, err_pieces, referr, aspects):
         if k == 'eq-types' and info.get('n_mismatches', 1) > 1:
             pass    # which mismatching pair is named is traversal-dependent
         elif not re.search(pat, msg): problems.append(('message', 'type diagnostic does not name operator and operand types in order: %r' % msg[:120]))
+    if k == 'type-context' and info.get('got'):
+        mm = re.search(rb"got '([a-z]+)'", msg)
+        if mm and mm.group(1).decode() != info['got']:
+            problems.append(('message', "type diagnostic says got '%s' for a value of type '%s'" % (mm.group(1).decode(), info['got'])))
+    if k == 'not-callable' and info.get('got'):
+        if ("'%s'" % info['got']).encode() not in msg: problems.append(('message', 'call diagnostic does not name the type %r: %r' % (info['got'], msg[:100])))
     if k == 'redeclare':
         pl, pc_ = info['prev']
         if ('%d:%d' % (pl, pc_)).encode() not in msg: problems.append(('message', 'redeclaration diagnostic does not cite the earlier position %d:%d: %r' % (pl, pc_, msg[:100])))
